@@ -144,8 +144,13 @@ func (m *c17mod) fs(r *rand.Rand, defaults map[string]bool) fstest.MapFS {
 		sb.WriteString("}\n")
 	}
 	out := fstest.MapFS{"cue.mod/module.cue": {Data: []byte(sb.String())}}
-	for dir, imps := range m.imports {
-		imps = append([]string{}, imps...)
+	var dirs []string
+	for dir := range m.imports {
+		dirs = append(dirs, dir)
+	}
+	sort.Strings(dirs)
+	for _, dir := range dirs {
+		imps := append([]string{}, m.imports[dir]...)
 		if r != nil {
 			r.Shuffle(len(imps), func(i, j int) { imps[i], imps[j] = imps[j], imps[i] })
 		}
@@ -416,8 +421,8 @@ func c17genUniverse(r *rand.Rand) *c17universe {
 		// empty, or the consistent requirements of a previous state of the source (a subset of today's imports)
 		if r.IntN(2) == 0 {
 			prev := map[string][]string{}
-			for dir, imps := range main.imports {
-				for _, ip := range imps {
+			for _, dir := range []string{"", "sub"} { // fixed order: the PRNG is consumed reproducibly
+				for _, ip := range main.imports[dir] {
 					if r.IntN(2) == 0 {
 						prev[dir] = append(prev[dir], ip)
 					}
@@ -425,7 +430,13 @@ func c17genUniverse(r *rand.Rand) *c17universe {
 			}
 			if deps, ok := u.resolve(nil, prev); ok {
 				// ... possibly resolved when only older versions were published
-				for p, v := range deps {
+				var dk []string
+				for p := range deps {
+					dk = append(dk, p)
+				}
+				sort.Strings(dk)
+				for _, p := range dk {
+					v := deps[p]
 					if r.IntN(3) == 0 {
 						if older := c17majorVersions(strings.SplitN(p, "@", 2)[1])[0]; u.mods[p+" "+older] != nil {
 							v = older
@@ -457,7 +468,8 @@ func c17genUniverse(r *rand.Rand) *c17universe {
 		u.mods[amb.path+" "+amb.ver] = amb
 		main.imports[""] = []string{pkgPath(0, "sub")}
 	case "nomajor":
-		for dir, imps := range main.imports {
+		for _, dir := range []string{"", "sub"} {
+			imps := main.imports[dir]
 			for k, ip := range imps {
 				if r.IntN(2) == 0 {
 					base, _, _ := strings.Cut(ip, "@")
